@@ -20,9 +20,39 @@ def lin_key(comp):
     return key_fn
 
 
-def run_schedules(rep, binary, sub, schedules, shards=12, env=None, label="sched", which="queue"):
+def has_burst(beh):
+    return any(s.get("burst") for s in beh)
+
+
+def with_procs(schedules):
+    """Burst schedules are run with GOMAXPROCS=1 (the burst is then atomic with respect to the goroutines it
+    wakes: 'both Adds before any waiter runs') and with 4 (the other orders are sampled): returns
+    (schedules, procs) with the short burst schedules duplicated and the long ones alternating."""
+    out, procs = [], []
+    for i, b in enumerate(schedules):
+        if not has_burst(b):
+            out.append(b); procs.append(0)
+        elif len(b) <= 5:
+            out += [b, b]; procs += [1, 4]
+        else:
+            out.append(b); procs.append(1 if i % 2 == 0 else 4)
+    return out, procs
+
+
+def pick(schedules, quick, seed, short=4, rest=1000):
+    """quick tier: every schedule of at most `short` steps plus a seeded sample of the longer ones."""
+    import random
+    if not quick:
+        return list(schedules)
+    a = [b for b in schedules if len(b) <= short + 1]      # + the `new` record
+    b = [x for x in schedules if len(x) > short + 1]
+    random.Random(seed).shuffle(b)
+    return a + b[:rest]
+
+
+def run_schedules(rep, binary, sub, schedules, shards=12, env=None, label="sched", which="queue", procs=None):
     """Execute schedules on the real code; returns the recorded histories."""
-    items = [dict(n=i, beh=b) for i, b in enumerate(schedules)]
+    items = [dict(n=i, beh=b, procs=(procs[i] if procs else 0)) for i, b in enumerate(schedules)]
     outs, meta = harness.run_sharded(binary, [sub, which], items, shards=shards, timeout=900, env_extra=env)
     hists, inconcl, begun, done = [], 0, set(), set()
     for o in outs:
